@@ -84,6 +84,23 @@ Theorem C13_exclude_threshold_refuted :
 Proof. exists h0, u0, o0, w1_ex, positional33, w1_t1, w1_t2. exact exclude_threshold_refuted. Qed.
 Print Assumptions C13_exclude_threshold_refuted.
 
+(** ... and "content under an excluded path never causes or suppresses an entry elsewhere" fails too: the
+    presence of the excluded key 'a' on both sides (it still counts in the intersection) decides whether the
+    siblings are reported one by one or as one values_changed of the parent *)
+Theorem C13_exclude_independence_threshold_refuted :
+  exists hatom udiff ops (ex : list pystr) (c : cfg) (k : atom) (v : value) (rest1 rest2 : list (atom * value)),
+  zip c = true /\ excluded no_skip ex [PKey k] = true /\
+  map (fun e => (ekind e, ep1 e))
+      (fst (run_filtered hatom udiff ops no_skip ex [] c (VDict ((k, v) :: rest1)) (VDict ((k, v) :: rest2)))) <>
+  map (fun e => (ekind e, ep1 e))
+      (fst (run_filtered hatom udiff ops no_skip ex [] c (VDict rest1) (VDict rest2))).
+Proof.
+  exists h0, u0, o0, w7_ex, positional33, w7_key, (vi 1), w7_rest1, w7_rest2.
+  destruct exclude_independence_threshold_refuted as (A & B & C).
+  split; [reflexivity|split; [exact A|]]. rewrite B, C. discriminate.
+Qed.
+Print Assumptions C13_exclude_independence_threshold_refuted.
+
 (** guarded: when subtracting the excluded keys changes no whole-dict shortcut ([stable]) *)
 Theorem C13_exclude_threshold_partial :
   forall hatom udiff ops (P E : path -> bool) (c : cfg) (t1 t2 : value),
